@@ -34,9 +34,9 @@ CONTRACTS = {
     "boolean_ndarray.to_list": {"props": ["C20"], "why": "variables at the 1-entries; rows recurse"},
     # ---- bounds (C12) ------------------------------------------------------------------------------------------
     "ge_polyhedron.column_bounds": {"props": ["C11", "C12"], "why": "2 x n array: lowers, uppers of A.variables"},
-    "ge_polyhedron.A_max": {"props": ["C12"], "why": "entry-wise max of a_ij*x_j over the box: lo*[A<0]*A + hi*[A>0]*A"},
+    "ge_polyhedron.A_max": {"props": ["C11", "C12"], "why": "entry-wise max of a_ij*x_j over the box: lo*[A<0]*A + hi*[A>0]*A"},
     "ge_polyhedron.A_min": {"props": ["C11", "C12"], "why": "entry-wise min of a_ij*x_j over the box: lo*[A>0]*A + hi*[A<0]*A"},
-    "ge_polyhedron.row_bounds": {"props": ["C12"], "why": "(Σ min(lo*A,hi*A) - b, Σ max(lo*A,hi*A) - b)"},
+    "ge_polyhedron.row_bounds": {"props": ["C11", "C12"], "why": "(Σ min(lo*A,hi*A) - b, Σ max(lo*A,hi*A) - b)"},
     "ge_polyhedron.n_row_combinations": {"props": ["C12"], "why": "Π over non-zero coefficients of (hi - lo + 1)"},
     "ge_polyhedron.tighten_column_bounds": {"props": ["C11", "C12"],
                                             "why": "implied bounds a_j x_j >= b - Σ_{k≠j} max(a_k x_k): floor(-(row_ub - A_max)/A), "
